@@ -42,7 +42,8 @@ def cvc5_solve(smt2, timeout=CVC5_TIMEOUT):
 def discharge(ob, z3_ms=None):
     st = vcgen.solve(ob, z3_ms or Z3_TIMEOUT)
     if st == "unknown":
-        r = cvc5_solve(ob.meta.get("smt2", ""))
+        r = cvc5_solve(ob.meta.get("smt2", ""), 20 if z3_ms else CVC5_TIMEOUT)
+
         if r == "unsat":
             ob.status, ob.backend = "proved", "cvc5"
         elif r == "sat":
@@ -283,11 +284,25 @@ def run_symbol(task):
                     break
             if u.ret_states and not reach:
                 res["errors"].append("vacuous: no return of %s is reachable under its contract" % f["name"])
+            n_unknown = 0
+            if getattr(c, "z3_budget_ms", None):
+                # first a quick pass over every obligation (most are decided at once, refutable ones included), so that
+                # the early stop below never hides an obligation that can be decided
+                for ob in u.ev.obls:
+                    if ob.status is None and not (ob.kind.startswith("S.") and "S" not in opts["kinds"]):
+                        if vcgen.solve(ob, 1500) == "unknown":
+                            ob.status = None
             for ob in u.ev.obls:
                 if ob.kind.startswith("S.") and "S" not in opts["kinds"]:
                     continue
+                if ob.status is None and n_unknown >= 3 and not ob.meta.get("auto"):
+                    # the unit is already undecided: the remaining obligations are not attempted (an edit that breaks
+                    # a quantified contract makes most of them time out, which would take minutes per unit)
+                    ob.status, ob.backend, ob.time = "unknown", "skipped", 0.0
                 if ob.status is None:
                     discharge(ob, getattr(c, "z3_budget_ms", None))
+                    if ob.status == "unknown" and not ob.meta.get("auto"):
+                        n_unknown += 1
                 if ob.meta.get("auto"):
                     continue      # inferred invariants: proved by construction (Houdini), not counted
                 res["obligations"].append(ob_record(symbol, n, ob, info["args"]))
